@@ -233,6 +233,38 @@ for cap, side in (("NH2", "after"), ("LIG", "after"), ("ACE", "before"), ("LIG",
                 lambda cap=cap, side=side, flavour=flavour: cap_case(cap, side, flavour))
 
 
+def box_case(cell, models, flavour):
+    """an equivalent box: the unit cell (three lengths, three angles - hexagonal, triclinic, a-/c-unique monoclinic
+    cells included) of the structure read back equals the one written, for every model"""
+    la, lb, lc, al, be, ga = cell
+    ar, br, gr = np.deg2rad([al, be, ga])
+    bx, by = lb * np.cos(gr), lb * np.sin(gr)
+    cx = lc * np.cos(br)
+    cy = lc * (np.cos(ar) - np.cos(br) * np.cos(gr)) / np.sin(gr)
+    cz = np.sqrt(lc * lc - cx * cx - cy * cy)
+    box = np.array([[la, 0, 0], [bx, by, 0], [cx, cy, cz]], dtype=np.float32)
+    a = build(2, models, [""], [0], [False], False, False, ())
+    a.box = box if models is None else np.stack([box] * models)
+    b, g = cycle(a, flavour, ())
+    if b.box is None:
+        return "no box read back"
+    for bb in ([b.box] if models is None else list(b.box)):
+        u = struc.unitcell_from_vectors(bb)
+        got = [float(u[0]), float(u[1]), float(u[2])] + [float(np.rad2deg(x)) for x in u[3:]]
+        for gv, e, tol, name in zip(got, cell, (2e-3,) * 3 + (2e-2,) * 3, ("a", "b", "c", "alpha", "beta", "gamma")):
+            if abs(gv - e) > tol + 2e-6 * abs(e):
+                return f"unit cell {name} = {e} read back as {gv:.4f} (whole cell {[round(x, 3) for x in got]}, wrote {list(cell)})"
+    return same(a, b, ()) if models is None or True else None
+
+
+for cell in [(10, 12, 15, 90, 90, 90), (30, 30, 50, 90, 90, 120), (30.5, 40.25, 50.125, 80, 100, 110), (40, 41, 42, 91, 92, 93), (20, 25, 30, 100, 90, 90),
+             (20, 25, 30, 90, 90, 105), (20, 25, 30, 90, 104.5, 90), (10, 10, 200, 90, 90, 90.1)]:
+    for models in (None, 2):
+        for flavour in ("cif", "bcif", "bcif-compressed"):
+            R.check("write-read cycle returns an equal structure", f"{flavour} unit cell", {"cell": list(cell), "models": models, "flavour": flavour},
+                    lambda cell=cell, models=models, flavour=flavour: box_case(cell, models, flavour))
+
+
 def snapshot_case(cfg, flavour):
     """set_structure() takes a snapshot: changing the caller's arrays in place afterwards must not change the file"""
     a = build(*cfg)
